@@ -195,6 +195,21 @@ func VH_C02_Sequential() {
 	zzverif.Reach("done")
 }
 
+// VH_C02_SameInstantOtherZone: the same authenticator decoded twice: its client time is the same instant
+// but, as the ASN.1 decoder produces for a GeneralizedTime with a zone offset, in a Location object of
+// its own each time.  It is the same authenticator: the second presentation is a replay.
+func VH_C02_SameInstantOtherZone() {
+	c := vhNewCache()
+	ct := zzverif.AnyTime()
+	a1 := vhAuth("c", ct.In(time.FixedZone("", 5400)), 7)
+	a2 := vhAuth("c", ct.In(time.FixedZone("", 5400)), 7)
+	a3 := vhAuth("c", ct.UTC(), 7)
+	zzverif.Assert("first-presentation-accepted", !c.IsReplay(vhSvc("s"), a1))
+	zzverif.Assert("same-instant-decoded-again-is-a-replay", c.IsReplay(vhSvc("s"), a2))
+	zzverif.Assert("same-instant-in-utc-is-a-replay", c.IsReplay(vhSvc("s"), a3))
+	zzverif.Reach("done")
+}
+
 // VH_C02_NameEncoding: client names that differ only in how a '/' splits them are different clients.
 func VH_C02_NameEncoding() {
 	c := vhNewCache()
@@ -270,6 +285,25 @@ func VH_C02_ConcurrentDistinct() {
 	var r1, r2 bool
 	zzverif.Par(func() { r1 = c.IsReplay(vhSvc("s"), vhAuth(cn1, ct, 1)) }, func() { r2 = c.IsReplay(vhSvc("s"), vhAuth(cn2, ct2, 1)) }, func() { c.ClearOldEntries(time.Hour) })
 	zzverif.Assert("distinct-authenticators-not-mistaken-for-replays", !r1 && !r2)
+	zzverif.Reach("done")
+}
+
+// VH_C02_SweepVsPresentation: a client whose only tracked authenticator has expired; a clean-up runs
+// while the client presents a fresh authenticator.  Whatever the interleaving, the fresh one is accepted
+// once and is still tracked afterwards.
+func VH_C02_SweepVsPresentation() {
+	c := vhNewCache()
+	d := 5 * time.Minute
+	t0 := zzverif.Now()
+	zzverif.Assert("first-presentation-accepted", !c.IsReplay(vhSvc("s"), vhAuth("c", t0, 0)))
+	zzverif.AdvanceClock()
+	t1 := zzverif.Now()
+	zzverif.Assume(t1.Sub(t0) > d) // the old authenticator can no longer pass the skew check
+	fresh := vhAuth("c", t1, 1)
+	var r bool
+	zzverif.Par(func() { c.ClearOldEntries(d) }, func() { r = c.IsReplay(vhSvc("s"), fresh) })
+	zzverif.Assert("fresh-authenticator-accepted", !r)
+	zzverif.Assert("fresh-authenticator-still-tracked-after-the-sweep", c.IsReplay(vhSvc("s"), fresh))
 	zzverif.Reach("done")
 }
 
